@@ -34,6 +34,10 @@ func (m *Machine) drawEth(t *rapid.T, g *GenOpts, a *Action) {
 	switch x.Target {
 	case ethTargetAssetsForwarder, ethTargetDelegationForwarder, ethTargetPrecompileDirect:
 		x.Mode = []int{0, 0, 0, 1, 1, 2, 3}[uniform(t, 7, "mode")]
+		if x.Target != ethTargetPrecompileDirect {
+			// how the forwarder calls the precompile: CALL, STATICCALL, DELEGATECALL
+			x.Mode |= []int{0, 0, 0, 1, 2}[uniform(t, 5, "call-kind")] << 4
+		}
 		x.Inner = []string{"depositLST", "depositLST", "withdrawLST", "delegate", "delegate", "undelegate", "registerToken"}[uniform(t, 7, "inner")]
 		lst := m.lstAssets()
 		x.Asset = lst[uniform(t, len(lst), "asset")]
